@@ -491,6 +491,24 @@ pub fn run(a: &Args) -> i32 {
             }
         }
     }
+    // en-passant captures that uncover a check (the mark on the label depends on a third square),
+    // checking double steps answered only by en passant, and castle-shaped queen / rook moves:
+    // every k-th member of those families, with the string inputs
+    {
+        let mut fam: Vec<Pos> = Vec::new();
+        let ed = ep_discovery();
+        let k = if thorough { 40 } else { 160 };
+        fam.extend(ed.into_iter().step_by(k));
+        let (after, before) = ep_only_reply();
+        fam.extend(after.into_iter().step_by(if thorough { 16 } else { 60 }));
+        fam.extend(before.into_iter().step_by(if thorough { 16 } else { 60 }));
+        fam.extend(castle_shaped_moves().into_iter().step_by(if thorough { 4 } else { 12 }));
+        for p in fam {
+            if seen.insert(canon(&p)) {
+                states.push((p, None, true));
+            }
+        }
+    }
     let mut st = Stats { coord_inputs: 0, coord_accepted: 0, string_inputs: 0, string_exact_labels: 0, string_must_reject: 0, string_unjudged: 0, cli_inputs: 0, cli_castle_with_mark: 0, games_made: 0, promotions_by_coordinates: 0 };
     let mut games_total = 0u64;
     let mut nstr = 0u64;
